@@ -17,6 +17,8 @@ MIN_OBLIGATIONS = 45
 
 
 def check(ctx):
+    from . import c02 as _c02
+    _c02.check_env_read(ctx)      # a log block is short only at the end of the file
     witness.run(ctx, "C15")
     wal.check_header_agreement(ctx)
     wal.check_block_tail(ctx)
